@@ -308,5 +308,13 @@ def rule_inverse(repo, tier):
     return res
 
 
+def rule_pure13(repo, tier):
+    from ..effects import rule_pure
+    t = [(EKF, 'EKF.forward'), (UKF, 'UKF.forward'), (UKF, 'UKF.sigma_weight_points'), (UKF, 'UKF.compute_cov'), (PF, 'PF.forward'),
+         (PF, 'PF.generate_particles'), (PF, 'PF.relative_likelihood'), (PF, 'PF.resample_particles'), (PF, 'PF.compute_cov')]
+    return rule_pure(repo, 'C13.PURE', 'the filter steps do not write in place into the state, covariance or noise tensors they are given: a run of '
+                     'consecutive steps that reuses the same Q / R objects sees them unchanged', t)
+
+
 def rules(repo, tier):
-    return [rule_innov(repo, tier), rule_gain(repo, tier), rule_xcov(repo, tier), rule_orient(repo, tier), rule_pf(repo, tier), rule_inverse(repo, tier)]
+    return [rule_pure13(repo, tier), rule_innov(repo, tier), rule_gain(repo, tier), rule_xcov(repo, tier), rule_orient(repo, tier), rule_pf(repo, tier), rule_inverse(repo, tier)]
